@@ -237,3 +237,44 @@ func TestVerif_C40_Shapes_data_transactions(t *testing.T) {
 		}
 	})
 }
+
+// TestVerif_C40_KnownPointerToEmpty_data_transactions reproduces the one class that is excluded by construction from
+// the random search: a non-nil pointer to an all-zero value. Transaction.HeartbeatTxnFields is the only pointer field
+// of a consensus object; `"hb": {}` is accepted from the wire by the generated decoder (it allocates the pointee), the
+// generated encoder writes it back, the reflection encoder (RecursiveEmptyCheck looks through the pointer) omits it.
+func TestVerif_C40_KnownPointerToEmpty_data_transactions(t *testing.T) {
+	vk := vkBegin(t, "C40")
+	vk.Rule("fixed reproduction of the excluded class pointer-to-empty: Transaction{Type, Sender, HeartbeatTxnFields: &HeartbeatTxnFields{}} for each transaction type, built directly and decoded from wire bytes; non-trivial = the two encoders disagree")
+	type rp struct {
+		Type    string
+		Wire    string
+		Msgp    string
+		Reflect string
+	}
+	n := 0
+	for _, tt := range c40TxTypes {
+		tx := Transaction{Type: tt, HeartbeatTxnFields: &HeartbeatTxnFields{}}
+		tx.Sender[0] = 1
+		wire := protocol.Encode(&tx)
+		var dec Transaction
+		if err := protocol.Decode(wire, &dec); err != nil {
+			t.Fatalf("wire bytes with an empty hb map are rejected: %v (%s)", err, eHex(wire))
+		}
+		e1, e2 := protocol.Encode(&dec), protocol.EncodeReflect(&dec)
+		differ := !bytes.Equal(e1, e2)
+		vk.Case(differ, string(tt))
+		if differ {
+			n++
+			id1 := dec.ID()
+			id2 := Txid(sha512.Sum512_256(append([]byte("TX"), e2...)))
+			r := rp{Type: string(tt), Wire: eHex(wire), Msgp: eHex(e1), Reflect: eHex(e2)}
+			vk.Sample(true, r)
+			vk.Known("pointer-to-empty", fmt.Sprintf("Transaction decoded from %s (hb: {}) has a non-nil pointer to an empty HeartbeatTxnFields: generated encoder emits \"hb\":{} (%d bytes, txid %v), reflection encoder omits it (%d bytes, txid %v)", eHex(wire), len(e1), id1, len(e2), id2), r)
+		} else {
+			vk.Sample(false, rp{Type: string(tt), Wire: eHex(wire)})
+		}
+	}
+	if n == 0 {
+		vk.Label("pointer-to-empty no longer reproduces (the exclusion in eRepairRequired can be removed)")
+	}
+}
